@@ -23,9 +23,9 @@ FNUM = ['0', '1', '2', '3', '4', '255', '256', '-1']
 NAME = ['"F1"', '"NOFILE"', '""', 'STRING$(255,"A")', '"A"+CHR$(0)+"B"', '"A:X"', '"..\\X"', '"COM1:"', '"LPT1:"',
         '"SCRN:"', '"KYBD:"', '"CAS1:"', '"C:\\"', '"*.*"', '"PROG.BAS"', '"PROT.BAS"', '"ASC.BAS"', '"SUB\\X"', 'CHR$(255)']
 VAR = ['A', 'A%', 'A$', 'A#', 'B(1)', 'B$(1)', 'B(99)', 'A!']
-# memory offsets: low memory / sentinel bytes, keyboard buffer pointers, FIELD buffers and the file headers between them,
+# memory offsets: low memory / sentinel bytes, keyboard buffer pointers, video mode/colour info bytes (1097, 1125, 1126), FIELD buffers and the file headers between them,
 # program code, variable space, top of the segment
-ADDR = ['0', '4', '44', '1050', '1052', '3429', '4073', '4330', '4588', '4718', '30000', '65535', '-1']
+ADDR = ['0', '4', '44', '1050', '1052', '3429', '4073', '4330', '4588', '4718', '30000', '65535', '-1', '1097', '1125', '1126']
 CLASSES = {'i': INT, 's': STR, 'l': LINE, 'f': FNUM, 'n': NAME, 'v': VAR, 'a': ADDR}
 NOMINAL = {'i': 4, 's': 1, 'l': 1, 'f': 1, 'n': 0, 'v': 0, 'a': 0}       # 0-based index of the nominal representative
 
@@ -96,6 +96,7 @@ S('PRINT_FILE_USING', 'PRINT#{0},USING "##.#";{1}', 'fi', [F], kw=['PRINT', 'USI
 S('CLEAR', 'CLEAR {0},{1},{2}', 'iii', [F] + P + G, flags=['quick'])
 S('CLEAR_MEM', 'CLEAR ,{0}', 'i', [F], kw=['CLEAR'], flags=['quick'])
 S('CLEAR_VIDEO', 'CLEAR ,,,{0}', 'i', G, kw=['CLEAR'], flags=['pcjr'])
+S('CLEAR_VIDEO_STR', 'CLEAR ,,,{0}', 's', G, kw=['CLEAR'], flags=['pcjr'])
 S('LIST', 'LIST {0}-{1}', 'll', P, flags=['quick'])
 S('LIST_FILE', 'LIST {0}-,{1}', 'ln', [F] + P, kw=['LIST'])
 S('LIST_DOT', 'LIST .', '', P, kw=['LIST'])
